@@ -103,8 +103,10 @@ Fixpoint find_obj (o : N) (d : node) : option node :=
   | _ => None
   end.
 
-(* ================= part 1: _delete_nodes (processor.py:745-867) ==========
-   after fix 17f9ea8: the gathered NodeCoords are flattened (_leaf_node_coords),
+(* ================= part 1: _delete_nodes (processor.py:745-862) ==========
+   after fixes 17f9ea8 and 1c243db: the gathered NodeCoords are flattened (_leaf_node_coords),
+   a coordinate whose parent is no container (the document root) makes the
+   whole call refuse before anything is deleted,
    every place (parent object, parentref) is kept once with a negative list
    index resolved against the intact list, and the places are processed in
    reverse gather order except that list elements go first, highest position
@@ -144,12 +146,19 @@ Definition remove_child (i : nat) (n : node) : node :=
 Definition del_in (r : pyval) (n : node) : res node :=
   rbind (del_index r n) (fun oi => match oi with Some i => ROk (remove_child i n) | None => ROk n end).
 
-(* one place of the deletion loop: the branches on type(parent) *)
+(* one place of the deletion loop: the branches on type(parent); the loop has
+   no `else:` (a parent that is no container never gets this far, see
+   [has_root_coord]) *)
 Definition del_step (p : pcoord) (d : node) : res node :=
   match pc_parent p with
-  | None => RErr (YPE NoDocument)          (* the `else:` branch: refusing to delete the document *)
+  | None => ROk d
   | Some o => app_obj o (del_in (pc_ref p)) d
   end.
+
+(* `if not isinstance(parent, (dict, list, CommentedSet, set)): raise NoDocumentYAMLPathException`
+   while the places are being collected, i.e. before anything is deleted *)
+Definition has_root_coord (ps : list pcoord) : bool :=
+  existsb (fun p => match pc_parent p with None => true | Some _ => false end) ps.
 
 (* Processor._leaf_node_coords: the innermost NodeCoords in GATHER order *)
 Fixpoint leaf_coords1 (c : coord) : list pcoord :=
@@ -222,9 +231,10 @@ Fixpoint run_del (ps : list pcoord) (d : node) : final :=
   end.
 
 (* Processor.delete_nodes / delete_gathered_nodes on already gathered coordinates *)
-Definition delete_nodes (cs : list coord) (d : node) : final := run_del (del_plan d cs) d.
+Definition delete_nodes (cs : list coord) (d : node) : final :=
+  if has_root_coord (leaf_coords cs) then Failed d (YPE NoDocument) else run_del (del_plan d cs) d.
 
-(* ---- the YAML-merge-key test of the dict branch (processor.py 821-846) ----
+(* ---- the YAML-merge-key test of the dict branch (processor.py 832-857) ----
    Before `del parent[parentref]` the dict branch scans the WHOLE document for
    anchors (Anchors.scan_for_anchors(ancestry[0][0])) and, when parentref is
    the anchor name of a MAPPING (is_ymk_anchor) and the parent itself has
@@ -274,7 +284,7 @@ Definition is_ymk_anchor (r : pyval) (d : node) : bool :=
 
 Definition del_step_mg (mg : list N) (p : pcoord) (d : node) : res node :=
   match pc_parent p with
-  | None => RErr (YPE NoDocument)
+  | None => ROk d
   | Some o =>
       if existsb (N.eqb o) mg && is_ymk_anchor (pc_ref p) d
       then RErr (PyCrash NotImplemented)          (* the merge-key removal branch: outside the model *)
@@ -292,7 +302,8 @@ Fixpoint run_del_mg (mg : list N) (ps : list pcoord) (d : node) : final :=
 
 (* Processor.delete_nodes on a document some of whose mappings carry merge keys;
    [delete_nodes] above is the case mg = [] (C04merge.delete_nodes_mg_nil) *)
-Definition delete_nodes_mg (mg : list N) (cs : list coord) (d : node) : final := run_del_mg mg (del_plan d cs) d.
+Definition delete_nodes_mg (mg : list N) (cs : list coord) (d : node) : final :=
+  if has_root_coord (leaf_coords cs) then Failed d (YPE NoDocument) else run_del_mg mg (del_plan d cs) d.
 
 (* ================= part 2: set_value / _apply_change / _update_node =======
    processor.py 169-343 and 2630-2760 after the fix: commits 2481ae4 (sets),
